@@ -140,6 +140,8 @@ Proof.
     + destruct wr; [|unfold cs_conn; destruct (cs_end c pb); exact a3].
       destruct (notes_fields hstate (cl_write_data (cc_maxFrame (cs_conn c pb id)) id (cs_chunk c pb) (cs_end c pb)) (cs_conn c pb id)) as (_ & _ & F3).
       rewrite F3. unfold cs_conn; destruct (cs_end c pb); exact a3.
+  - (* MSendBack *)
+    cbn [apply]. destruct (cl_pend_get _ _) as [pb|]; [|exact A]. sb_cases c pb; apply (AInv_same c); try reflexivity; exact A.
   - (* MEncSync *) cbn [apply]. destruct (negb _); [|exact A]. apply (AInv_same c); try reflexivity; exact A.
   - (* MHeaders *)
     destruct A as [a1 a2 a3]. constructor; [|exact OUT|]; cbn [apply]; destruct opb; assumption.
@@ -347,6 +349,9 @@ Proof.
     + assert (E2 : forall l (c0 : cconn), cc_closed (cl_notes c0 l) = cc_closed c0 /\ cl_can_write (cl_notes c0 l) = cl_can_write c0 /\ cc_rl_stuck (cl_notes c0 l) = cc_rl_stuck c0).
       { clear. induction l as [|o t IH]; intro c0; [repeat split|]. cbn [cl_notes]. destruct (IH (cl_note c0 o)) as (A & B & C). rewrite A, B, C. repeat split. }
       destruct (E2 l2 (cs_conn c pb id)) as (A1 & B1 & C1). apply healthy_fields; assumption.
+  - (* MSendBack *)
+    cbn [apply]. destruct (cl_pend_get _ _) as [pb|]; [|exact P].
+    sb_cases c pb; apply (PInv_same c); try reflexivity; try exact P; apply healthy_fields; reflexivity.
   - (* MEncSync *)
     cbn [apply]. destruct (negb _); [|exact P]. apply (PInv_same c); try reflexivity; [apply healthy_fields; reflexivity | exact P].
   - (* MHeaders *)
@@ -406,7 +411,9 @@ Proof.
                        if (cc_hdrStatus c1 =? 0)%Z then
                          if negb (ct_gotStatus x) || negb (cc_hdrEndStream c1) then (ok1, CRSStream CEMalformed) else (ok1, CRSNone)
                        else if ct_gotStatus x then (ok1, CRSStream CEMalformed)
-                       else (Some (ctu_gotStatus x (200 <=? cc_hdrStatus c1)%Z), CRSNone)
+                       else
+                         let final := (200 <=? cc_hdrStatus c1)%Z in
+                         (Some (ctu_gotStatus x final), if negb final && cc_hdrEndStream c1 then CRSStream CEMalformed else CRSNone)
                      else (ok1, err)
                    | _, _ => (ok1, err)
                    end in
